@@ -53,6 +53,42 @@ def dominated_by_any(fn, block, doms):
     return any(x in d for x in doms if x is not None)
 
 
+def owner_branch_checks_shared(fn):
+    """has_unique_ref, owner arm: every path to the return either leaves through the 'owner count is not 1' side of the
+    comparison of biased_counter with 1, or passes through the read of the shared counter (Packed::get_counter).
+    returns (ok, detail)"""
+    eqs = fn.call_blocks(r"\{impl PartialEq(<ThreadId>)? for ThreadId\}::eq$")
+    if not eqs:
+        return False, "no owner test"
+    entry = lib.bool_branch(fn, eqs[0])[0]
+    if entry is None:
+        return False, "owner test is not branched on"
+    gets = set(fn.call_blocks(r"\{impl Packed\}::get_counter$"))
+    if not gets:
+        return False, "shared counter never read"
+    # the comparison of the owner count with 1
+    seen, stack = set(), [entry]
+    while stack:
+        b = stack.pop()
+        if b in seen or b in gets:
+            continue
+        seen.add(b)
+        blk = fn.blocks[b]
+        succ = fn.succ(b)
+        if blk["k"] == "switch":
+            ops = [e for e in blk["e"] if e[0] == "binop" and e[2] == "u32" and "const:1" in (e[5], e[6])]
+            if ops and blk["on"] == "bool":
+                zero = [t for v, t in blk["targets"] if v == "0"]
+                if ops[-1][1] == "Eq":      # true (otherwise) = count is 1 -> must go on to the shared check
+                    succ = [blk["otherwise"]]
+                elif ops[-1][1] == "Ne":    # true = count is not 1 -> legitimate early 'false'
+                    succ = zero
+        if blk["k"] == "return":
+            return False, "a path of the owner branch reaches the return without reading the shared counter"
+        stack.extend(succ)
+    return True, ""
+
+
 def run(F, R, ctx):
     R.rule("C05.a", "RcWord.biased_counter (a Cell) is accessed only in owner-only code: the fast paths called on the "
                     "owner==current-thread branch, arms dominated by `tid == ThreadId::current_thread()`, the merge "
@@ -239,13 +275,11 @@ def run(F, R, ctx):
                "%s obtains &mut to the payload through the unchecked accessor, bypassing the uniqueness test" % lib.short_name(c),
                F.fns[c].loc() if c in F.fns else "", sample=True)
     hu_ = F.one(r"^steel_rc::\{impl RcBox<T>\}::has_unique_ref$")
-    cmp1 = [e for _, _, e in hu_.events("binop") if e[1] == "Eq" and e[2] == "u32" and "const:1" in (e[5], e[6])]
-    cmp0 = [e for _, _, e in hu_.events("binop") if e[1] in ("Ne", "Eq") and e[2] == "i32" and "const:0" in (e[5], e[6])]
     setc = [b["args"] for _, b in hu_.calls() if re.search(r"\{impl Packed\}::set_counter$", b["callee"])]
-    R.inst("C05.d", "has_unique_ref / owner branch: local count == 1 and shared count == 0", bool(cmp1) and bool(cmp0) and
-           bool(hu_.call_blocks(r"\{impl Packed\}::get_counter$")),
-           "RcBox::has_unique_ref no longer compares the owner counter with 1 and the shared counter with 0: it can report "
-           "uniqueness while another thread still holds a reference", hu_.loc(), sample=True)
+    okb, why = owner_branch_checks_shared(hu_)
+    R.inst("C05.d", "has_unique_ref / owner branch: local count == 1 and shared count == 0", okb,
+           "RcBox::has_unique_ref: %s — it can report uniqueness on the owner thread while another thread still holds a "
+           "reference counted in the shared word" % why, hu_.loc(), sample=True)
     R.inst("C05.d", "has_unique_ref / merged branch: compare_exchange(count 1 -> 0)",
            bool(hu_.call_blocks(r"\{impl SharedPacked\}::compare_exchange$")) and
            any("const:1" in a for a in setc) and any("const:0" in a for a in setc),
